@@ -8,7 +8,10 @@ import tempfile
 from harness.lib import hx, zl, cz, cbool, clist
 
 ID = 'C10'
-RULE = ('genomes of 1..4 chromosomes (sizes 1..S; names where one is a prefix of another; names with "_" under the '
+RULE = ('[also: 2..3-step programs = interval-producing operations (sorted, merged, clip, extended_to_size, [::-1], [mask], '
+        'get_location.get_windows) followed by a strand-aware consumer (array values, sequence, get_location) on stranded tables '
+        'with - rows, on plain and with_ignored_added genomes] '
+        'genomes of 1..4 chromosomes (sizes 1..S; names where one is a prefix of another; names with "_" under the '
         'keep-all and the ignore-underscore filter; in 60% of the scenarios followed by 0..2 Genome.with_ignored_added calls of '
         '0..2 existing or new names, entries also on the added names) x interval / location sets per chromosome with endpoints drawn '
         'mostly from {0,1,size-1,size}, x every operation of the property (coordinates, pileup, mask, merged(d), clip, '
@@ -53,6 +56,10 @@ CLIP_OUTSIDE_FULL = True
 # (IndexedFasta._get_interval_sequences_fast looks every label of the encoding up in the .fai) — notes/C10.fix-5.diff.
 # Until that is committed the indexed-FASTA route is only generated with steps that add existing names.
 FASTA_WITH_NEW_IGNORED = True
+# GenomicIntervalsFull.extended_to_size() drops the strandedness flag at HEAD (from_intervals(.., genome_context) without
+# is_stranded): stranded programs with an extended_to_size step followed by a strand-sensitive use are generated only once
+# notes/C10.fix-6.diff is committed (then set this to True and extend_keeps_strand := true in Model/C10.v).
+EXTEND_KEEPS_STRAND = False
 
 ERR = {'AssertionError': 1, 'AttributeError': 2, 'IndexError': 3, 'GenomeError': 4, 'Exception': 5,
        'ComputationException': 6}
@@ -190,6 +197,107 @@ def _ops_for(rng, genome, filt, es, es_all, shuffled, locs, tier, added=()):
     return out
 
 
+def _sim(ext, inc, stranded, entries, steps):
+    """final rows [chr, start, stop, fwd] of a program on the visible entries, or None if a step leaves the class of
+    tables the consumers are specified for.  Only used to decide which programs / consumers to emit."""
+    rows = [list(e) for e in entries if e[0] in inc]
+    size = lambda c: ext[c][1]
+    for st in steps:
+        k = st[0]
+        if k == 'sorted':
+            rows.sort(key=lambda e: (inc.index(e[0]), e[1], e[2]))
+        elif k == 'merged':
+            out = []
+            for e in rows:
+                if out and out[-1][0] == e[0] and e[1] <= out[-1][4] + st[1]:
+                    out[-1][4] = max(out[-1][4], e[2])
+                else:
+                    out.append([e[0], e[1], e[2], e[3], e[2]])
+            rows = [[c, s, m, f] for c, s, t, f, m in out]
+        elif k == 'clip':
+            rows = [[c, min(max(0, s), size(c)), max(min(size(c), t), 0), f] for c, s, t, f in rows]
+        elif k == 'extend':
+            rows = [[c, s, min(s + st[1], size(c)), f] if f else [c, max(t - st[1], 0), t, f] for c, s, t, f in rows]
+        elif k == 'rev':
+            rows = rows[::-1]
+        elif k == 'mask':
+            if len(st[1]) != len(rows):
+                return None
+            rows = [e for e, b in zip(rows, st[1]) if b]
+        elif k == 'locwin':
+            w, fl = st[1], st[2]
+            out = []
+            for c, s, t, f in rows:
+                fwd = f or not stranded
+                p = (s if fwd else t - 1) if w == 0 else ((t - 1 if fwd else s) if w == 1 else (s + t) // 2)
+                out.append([c, min(max(0, p - fl), size(c)), max(min(size(c), p + fl + 1), 0), f])
+            rows = out
+        if any(not (0 <= s < t <= size(c)) for c, s, t, f in rows):
+            return None
+    return rows
+
+
+def _programs(rng, genome, filt, added, shuffled, tier):
+    """2..3-step programs: interval-producing operations followed by a strand-aware consumer, on stranded tables with
+    '-' rows (and a few unstranded ones)"""
+    ext = _ext(genome, added)
+    inc = _included(genome, filt, added)
+    base = [list(e) for e in shuffled if e[1] < e[2]]
+    if not any(e[0] in inc for e in base):
+        return []
+    # at least one row on the reverse strand
+    vis = [e for e in base if e[0] in inc]
+    if all(e[3] for e in vis):
+        rng.choice(vis)[3] = 0
+    vals = [[(i + 1) * 10 + p for p in range(s)] for i, (n, s) in enumerate(ext)]
+    seqs = [[rng.choice(b'ACGT') for _ in range(s)] for n, s in ext]
+    out = []
+    n_prog = 8 if tier == 'quick' else 10
+    for _ in range(n_prog):
+        stranded = 1 if rng.random() < 0.85 else 0
+        entries = [list(e) for e in base]
+        steps = []
+        for _ in range(rng.choice([1, 1, 2])):
+            nvis = None
+            kind = rng.choice(['sorted', 'sorted', 'merged', 'clip', 'extend', 'rev', 'mask', 'locwin'])
+            if kind == 'merged':
+                steps += [['sorted'], ['merged', rng.choice([0, 1, 2])]]
+            elif kind == 'clip':
+                if not steps:
+                    entries = [[c, s - rng.choice([0, 1, 2]), t + rng.choice([0, 1, 2]), f] for c, s, t, f in entries]
+                steps.append(['clip'])
+            elif kind == 'extend':
+                if not stranded:
+                    continue
+                steps.append(['extend', rng.choice([1, 2, 3, 5])])
+            elif kind == 'mask':
+                cur = _sim(ext, inc, stranded, entries, steps)
+                if cur is None or len(cur) < 2:
+                    continue
+                bits = [rng.randint(0, 1) for _ in cur]
+                if not any(bits):
+                    bits[0] = 1
+                steps.append(['mask', bits])
+            elif kind == 'locwin':
+                steps.append(['locwin', rng.choice([0, 1, 2]), rng.choice([0, 1, 2])])
+            else:
+                steps.append([kind])
+        if not steps:
+            continue
+        fin = _sim(ext, inc, stranded, entries, steps)
+        if fin is None or not fin:
+            continue
+        loses = stranded and any(st[0] == 'extend' for st in steps) and not EXTEND_KEEPS_STRAND
+        conss = [['location', 2]] if loses else [['extract'], ['seq'], ['location', rng.choice([0, 1])], ['location', 2]]
+        for cons in conss:
+            if cons[0] == 'seq' and all(t - s_ == 1 for c, s_, t, f in fin):
+                continue          # the known np.where failure on all-length-1 tables is exercised by the plain seq cases
+            out.append(dict(genome=genome, filter=filt, added=[list(x) for x in added], entries=entries,
+                            vals=(seqs if cons[0] == 'seq' else vals if cons[0] == 'extract' else None),
+                            op=['prog', stranded, steps, cons]))
+    return out
+
+
 def _scenario(rng, S, tier, bad=False):
     genome, filt = _gen_genome(rng, S)
     # two-step configuration: the genome as built by from_dict, then 0..2 Genome.with_ignored_added calls
@@ -212,6 +320,8 @@ def _scenario(rng, S, tier, bad=False):
             locs.append([i, p, p + 1, 1])
     rng.shuffle(locs)
     cases = _ops_for(rng, orig, filt, es, es_all, shuffled, locs, tier, added)
+    progs = _programs(rng, orig, filt, added, shuffled, tier)
+    cases += progs
     if bad and inc:
         # one entry reaching outside its chromosome: the placing operations must refuse it
         i = rng.choice(inc)
@@ -395,6 +505,38 @@ def observe(case):
             st = bool(op[1])
             r = ga[g.get_intervals(intervals(st), stranded=st)]
             return rows_res(r, lambda row: [int(x) for x in (row.to_array() if hasattr(row, 'to_array') else np.asarray(row)).tolist()])
+        if kind == 'prog':
+            from bionumpy.genomic_data.genomic_track import GenomicArray
+            from bionumpy.arithmetics.intervals import GenomicRunLengthArray
+            from bionumpy.genomic_data.genomic_sequence import GenomicSequence
+            st, steps, cons = bool(op[1]), op[2], op[3]
+            gi = g.get_intervals(intervals(st), stranded=st)
+            for sp in steps:
+                if sp[0] == 'sorted':
+                    gi = gi.sorted()
+                elif sp[0] == 'merged':
+                    gi = gi.merged(sp[1])
+                elif sp[0] == 'clip':
+                    gi = gi.clip()
+                elif sp[0] == 'extend':
+                    gi = gi.extended_to_size(sp[1])
+                elif sp[0] == 'rev':
+                    gi = gi[::-1]
+                elif sp[0] == 'mask':
+                    gi = gi[np.array(sp[1], dtype=bool)]
+                elif sp[0] == 'locwin':
+                    gi = gi.get_location(['start', 'stop', 'center'][sp[1]]).get_windows(flank=sp[2])
+                else:
+                    raise ValueError(sp)
+            if cons[0] == 'extract':
+                flat = np.array([v for i in inc for v in case['vals'][i]], dtype=int)
+                ga = GenomicArray.from_global_data(GenomicRunLengthArray.from_array(flat), g.get_genome_context())
+                return rows_res(ga[gi], lambda row: [int(x) for x in (row.to_array() if hasattr(row, 'to_array') else np.asarray(row)).tolist()])
+            if cons[0] == 'seq':
+                gs = GenomicSequence.from_dict({n: bytes(case['vals'][i]).decode() for i, (n, s) in enumerate(genome)})
+                return rows_res(gs[gi], lambda row: list(row.to_string().encode()))
+            loc = gi.get_location(['start', 'stop', 'center'][cons[1]])
+            return dict(t='pos', l=[[c, int(p)] for c, p in zip(chroms(loc.chromosome), loc.position)])
         if kind == 'seq':
             st = bool(op[1])
             seqs = {n: bytes(case['vals'][i]).decode() for i, (n, s) in enumerate(genome)}
@@ -429,6 +571,26 @@ def _op_term(op):
     k = op[0]
     if k == 'coords':
         return 'OCoords'
+    if k == 'prog':
+        def step(sp):
+            if sp[0] == 'sorted':
+                return 'PSorted'
+            if sp[0] == 'merged':
+                return '(PMerged %s)' % cz(sp[1])
+            if sp[0] == 'clip':
+                return 'PClip'
+            if sp[0] == 'extend':
+                return '(PExtend %s)' % cz(sp[1])
+            if sp[0] == 'rev':
+                return 'PRev'
+            if sp[0] == 'mask':
+                return '(PMask %s)' % clist([cbool(b) for b in sp[1]], 'bool')
+            if sp[0] == 'locwin':
+                return '(PLocWin %s (m_flank_l %s) (m_flank_r %s))' % (cz(sp[1]), cz(sp[2]), cz(sp[2]))
+            raise ValueError(sp)
+        cons = op[3]
+        cterm = 'CExtract' if cons[0] == 'extract' else 'CSeq' if cons[0] == 'seq' else '(CLocation %s)' % cz(cons[1])
+        return '(OProg %s %s %s)' % (cbool(op[1]), clist([step(sp) for sp in op[2]], 'pstep'), cterm)
     if k in ('pileup', 'mask', 'clip', 'sorted'):
         return '(O%s %s)' % (k.capitalize(), cbool(op[1]))
     if k == 'merged':
@@ -506,7 +668,7 @@ def distribution(cases, obs):
     d = dict(ops={}, chromosomes={}, filters={}, errors={}, entries={}, boundary_pairs=0, empty_chromosome=0,
              ignored_in_genome=0)
     for c, o in zip(cases, obs):
-        k = c['op'][0] + ('/geo' if len(c['op']) > 1 and c['op'][1] == 1 and c['op'][0] not in ('location', 'extract', 'seq') else '')
+        k = c['op'][0] + ('/geo' if len(c['op']) > 1 and c['op'][1] == 1 and c['op'][0] not in ('location', 'extract', 'seq', 'prog') else '')
         d['ops'][k] = d['ops'].get(k, 0) + 1
         n = str(len(c['genome']))
         d['chromosomes'][n] = d['chromosomes'].get(n, 0) + 1
@@ -544,6 +706,22 @@ def finding(case, o):
     if op[0] == 'seq' and op[1] == 1 and o.get('exc') == 'AttributeError' and "'_shape'" in o.get('msg', '') \
             and es and all(e[2] - e[1] == 1 for e in es):
         return 'C10-seq-stranded-all-length-one'
+    if op[0] == 'prog' and op[1] == 1 and any(sp[0] == 'extend' for sp in op[2]):
+        # exactly what an UNSTRANDED table gives after the extended_to_size step: rows not reversed / complemented,
+        # locations at the left (start) resp. right (stop) end whatever the strand
+        ext = _g(case)
+        inc = _included(case['genome'], case['filter'], case.get('added') or [])
+        k = max(i for i, sp in enumerate(op[2]) if sp[0] == 'extend')
+        mid = _sim(ext, inc, True, case['entries'], op[2][:k + 1])
+        fin = _sim(ext, inc, False, [list(e) for e in mid], op[2][k + 1:]) if mid is not None else None
+        cons = op[3]
+        if fin is not None and any(not e[3] for e in fin):
+            if cons[0] == 'location' and o.get('t') == 'pos' and cons[1] in (0, 1) \
+                    and [p for c, p in o['l']] == [(e[1] if cons[1] == 0 else e[2] - 1) for e in fin]:
+                return 'C10-extended-to-size-drops-strand'
+            if cons[0] in ('extract', 'seq') and o.get('t') == 'rows' \
+                    and o['l'] == [list(case['vals'][e[0]][e[1]:e[2]]) for e in fin]:
+                return 'C10-extended-to-size-drops-strand'
     if op[0] == 'clip' and op[1] == 0 and o.get('t') == 'ivs' and any(e[1] > g[e[0]][1] or e[2] < 0 for e in es):
         exp = [[e[0], max(0, e[1]), min(g[e[0]][1], e[2])] for e in es]      # the one-sided formula
         if o['l'] == exp:
